@@ -21,7 +21,7 @@ from vf.evidence import MachineryFailure
 
 def conf_of(settings: dict[str, Any]) -> dict[str, Any]:
     return {'backoff': int(settings.get('backoff', 1)), 'eb': [int(x) for x in settings.get('eb', (1, 1))],
-            'ra': int(settings.get('ra', 2)), 'cli': int(settings.get('cli') or 0), 'ina': int(settings.get('ina') or 0)}
+            'ra': int(settings.get('ra', 2)), 'cli': int(settings.get('cli') or 0), 'ina': int(settings.get('ina') or 0), 'limit': 0}
 
 
 def conf_from_settings(settings: Any) -> dict[str, Any] | None:
@@ -33,7 +33,8 @@ def conf_from_settings(settings: Any) -> dict[str, Any] | None:
     if any(float(v) != int(v) for v in vals):
         return None
     return {'backoff': int(settings.watching.reconnect_backoff), 'eb': [int(x) for x in eb], 'ra': 2,
-            'cli': int(settings.watching.client_timeout or 0), 'ina': int(ina) if ina and ina < 1_000_000 else 0}
+            'cli': int(settings.watching.client_timeout or 0), 'ina': int(ina) if ina and ina < 1_000_000 else 0,
+            'limit': int(settings.queueing.worker_limit or 0)}
 
 
 def _fault_name(e: dict[str, Any]) -> str:
